@@ -94,7 +94,7 @@ pub fn probe_structures() -> i32 {
                 }
                 // typed wrappers and closures (embedded + detached, create + verify, fallible + infallible); each family runs only
                 // for the properties it concerns, so that a panic inside one is not reported for another
-                if relevant("C03,C06,C02,C01") {
+                if relevant("C03,C06,C01") {
                 let s1 = CoseSign1 { protected: p.clone(), payload: Some(payload.clone()), ..Default::default() };
                 check!("C03", s1.tbs_data(&aad), structure("Signature1", &[slot, &aad, &payload]), format!("CoseSign1::tbs_data {}", what));
                 slot!(s1.tbs_data(&aad), 1, slot, format!("CoseSign1::tbs_data {}", what));
@@ -121,7 +121,7 @@ pub fn probe_structures() -> i32 {
                 slot!(seen.clone(), 2, &prots[sp].1, format!("CoseSign::verify_detached_signature {}", what));
                 }
                 }
-                if relevant("C04,C06,C02,C01") {
+                if relevant("C04,C06,C01") {
                 let mut seen: Vec<u8> = vec![];
                 let m0 = CoseMac0 { protected: p.clone(), payload: Some(payload.clone()), ..Default::default() };
                 let _ = m0.verify_tag(&aad, |_t, d| -> Result<(), ()> { seen = d.to_vec(); Ok(()) });
@@ -132,7 +132,7 @@ pub fn probe_structures() -> i32 {
                 check!("C04,C06", seen.clone(), structure("MAC", &[slot, &aad, &payload]), format!("CoseMac::verify_tag {}", what));
                 slot!(seen.clone(), 1, slot, format!("CoseMac::verify_tag {}", what));
                 }
-                if relevant("C05,C06,C02,C01") {
+                if relevant("C05,C06,C01") {
                 let mut seen: Vec<u8> = vec![];
                 let e0 = CoseEncrypt0 { protected: p.clone(), ciphertext: Some(vec![1]), ..Default::default() };
                 let _ = e0.decrypt(&aad, |_c, d| -> Result<Vec<u8>, ()> { seen = d.to_vec(); Ok(vec![]) });
@@ -147,6 +147,37 @@ pub fn probe_structures() -> i32 {
                 check!("C05,C06", seen.clone(), structure("Mac_Recipient", &[slot, &aad]), format!("CoseRecipient::decrypt {}", what));
                 slot!(seen.clone(), 1, slot, format!("CoseRecipient::decrypt {}", what));
                 }
+                // C02 on the typed wrappers: only the protected slot(s) are looked at, and a panic inside a wrapper is somebody else's business
+                if relevant("C02") && std::env::var("PROBE_PROPERTY").map(|x| x == "C02").unwrap_or(false) {
+                    use std::panic::{catch_unwind, AssertUnwindSafe};
+                    macro_rules! slot_safe { ($got:expr, $idx:expr, $slot:expr, $what:expr) => {{ n += 1;
+                        if let Ok(g) = catch_unwind(AssertUnwindSafe(|| -> Vec<u8> { $got })) { if slot_mismatch(&g, $idx, $slot) {
+                            println!("FAILING-INPUT {} {}: element {} of the structure is not the protected byte string {}.. ({} bytes)", $what, what, $idx, hex(&$slot[..$slot.len().min(24)]), $slot.len()); return 1; } } }}; }
+                    let s1 = CoseSign1 { protected: p.clone(), payload: Some(payload.clone()), ..Default::default() };
+                    let s1d = CoseSign1 { protected: p.clone(), ..Default::default() };
+                    slot_safe!(s1.tbs_data(&aad), 1, slot, "CoseSign1::tbs_data");
+                    slot_safe!(s1d.tbs_detached_data(&payload, &aad), 1, slot, "CoseSign1::tbs_detached_data");
+                    slot_safe!({ let mut d2 = vec![]; let _ = s1.verify_signature(&aad, |_s, d| -> Result<(), ()> { d2 = d.to_vec(); Ok(()) }); d2 }, 1, slot, "CoseSign1::verify_signature");
+                    slot_safe!({ let mut d2 = vec![]; let _ = s1d.verify_detached_signature(&payload, &aad, |_s, d| -> Result<(), ()> { d2 = d.to_vec(); Ok(()) }); d2 }, 1, slot, "CoseSign1::verify_detached_signature");
+                    for sp in 0..2usize {
+                        let sig = CoseSignature { protected: prots[sp].0.clone(), ..Default::default() };
+                        let sg = CoseSign { protected: p.clone(), payload: Some(payload.clone()), signatures: vec![sig.clone()], ..Default::default() };
+                        let sgd = CoseSign { protected: p.clone(), signatures: vec![sig.clone()], ..Default::default() };
+                        slot_safe!(sg.tbs_data(&aad, &sig), 1, slot, "CoseSign::tbs_data"); slot_safe!(sg.tbs_data(&aad, &sig), 2, &prots[sp].1, "CoseSign::tbs_data (signer)");
+                        slot_safe!(sgd.tbs_detached_data(&payload, &aad, &sig), 1, slot, "CoseSign::tbs_detached_data"); slot_safe!(sgd.tbs_detached_data(&payload, &aad, &sig), 2, &prots[sp].1, "CoseSign::tbs_detached_data (signer)");
+                        slot_safe!({ let mut d2 = vec![]; let _ = sg.verify_signature(0, &aad, |_s, d| -> Result<(), ()> { d2 = d.to_vec(); Ok(()) }); d2 }, 2, &prots[sp].1, "CoseSign::verify_signature (signer)");
+                    }
+                    let m0 = CoseMac0 { protected: p.clone(), payload: Some(payload.clone()), ..Default::default() };
+                    let m = CoseMac { protected: p.clone(), payload: Some(payload.clone()), ..Default::default() };
+                    slot_safe!({ let mut d2 = vec![]; let _ = m0.verify_tag(&aad, |_t, d| -> Result<(), ()> { d2 = d.to_vec(); Ok(()) }); d2 }, 1, slot, "CoseMac0::verify_tag");
+                    slot_safe!({ let mut d2 = vec![]; let _ = m.verify_tag(&aad, |_t, d| -> Result<(), ()> { d2 = d.to_vec(); Ok(()) }); d2 }, 1, slot, "CoseMac::verify_tag");
+                    let e0 = CoseEncrypt0 { protected: p.clone(), ciphertext: Some(vec![1]), ..Default::default() };
+                    let e = CoseEncrypt { protected: p.clone(), ciphertext: Some(vec![1]), ..Default::default() };
+                    let rc = CoseRecipient { protected: p.clone(), ciphertext: Some(vec![1]), ..Default::default() };
+                    slot_safe!({ let mut d2 = vec![]; let _ = e0.decrypt(&aad, |_c, d| -> Result<Vec<u8>, ()> { d2 = d.to_vec(); Ok(vec![]) }); d2 }, 1, slot, "CoseEncrypt0::decrypt");
+                    slot_safe!({ let mut d2 = vec![]; let _ = e.decrypt(&aad, |_c, d| -> Result<Vec<u8>, ()> { d2 = d.to_vec(); Ok(vec![]) }); d2 }, 1, slot, "CoseEncrypt::decrypt");
+                    slot_safe!({ let mut d2 = vec![]; let _ = rc.decrypt(EncryptionContext::EncRecipient, &aad, |_c, d| -> Result<Vec<u8>, ()> { d2 = d.to_vec(); Ok(vec![]) }); d2 }, 1, slot, "CoseRecipient::decrypt");
+                }
             }
         }
     }
@@ -156,7 +187,7 @@ pub fn probe_structures() -> i32 {
         let payload = bytes(la / 2 + 5, 4);
         let hdr = HeaderBuilder::new().algorithm(iana::Algorithm::ES256).key_id(vec![9, 9]).build();
         let slot = hdr.clone().to_vec().unwrap();
-        if relevant("C03,C06,C02,C01") {
+        if relevant("C03,C06,C01") {
         let mut created: Vec<Vec<u8>> = vec![];
         let s1 = CoseSign1Builder::new().protected(hdr.clone()).payload(payload.clone()).create_signature(&aad, |d| { created.push(d.to_vec()); vec![7; 4] }).build();
         let s1 = CoseSign1::from_slice(&s1.to_vec().unwrap()).unwrap();
@@ -190,7 +221,7 @@ pub fn probe_structures() -> i32 {
             check!("C06", verified.clone(), c3[i].clone(), format!("Sign signer {} create/verify aad_len={}", i, la));
         }
         }
-        if relevant("C04,C06,C02,C01") {
+        if relevant("C04,C06,C01") {
         let mut verified: Vec<u8> = vec![];
         let mut c4: Vec<u8> = vec![];
         let m0 = CoseMac0Builder::new().protected(hdr.clone()).payload(payload.clone()).try_create_tag(&aad, |d| -> Result<Vec<u8>, ()> { c4 = d.to_vec(); Ok(vec![3]) }).unwrap().build();
@@ -198,7 +229,7 @@ pub fn probe_structures() -> i32 {
         let _ = m0.verify_tag(&aad, |_t, d| -> Result<(), ()> { verified = d.to_vec(); Ok(()) });
         check!("C06", verified.clone(), c4.clone(), format!("Mac0 create/verify aad_len={}", la));
         }
-        if relevant("C05,C06,C02,C01") {
+        if relevant("C05,C06,C01") {
         let mut verified: Vec<u8> = vec![];
         let mut c5: Vec<u8> = vec![];
         let e0 = CoseEncrypt0Builder::new().protected(hdr.clone()).create_ciphertext(&payload, &aad, |_pt, d| { c5 = d.to_vec(); vec![4] }).build();
@@ -207,7 +238,7 @@ pub fn probe_structures() -> i32 {
         check!("C06", verified.clone(), c5.clone(), format!("Encrypt0 create/decrypt aad_len={}", la));
         check!("C05,C06", c5.clone(), structure("Encrypt0", &[&slot, &aad]), format!("Encrypt0 create aad_len={}", la));
         }
-        if relevant("C05,C06,C02,C01") {
+        if relevant("C05,C06,C01") {
         
         // every remaining creating helper, fallible and infallible: what the caller's function is handed
         let mut got: Vec<u8> = vec![];
@@ -224,7 +255,7 @@ pub fn probe_structures() -> i32 {
             check!("C05,C06", got.clone(), structure(name, &[&slot, &aad]), format!("recipient try_create {} aad_len={}", name, la));
         }
         }
-        if relevant("C04,C06,C02,C01") {
+        if relevant("C04,C06,C01") {
         let mut got: Vec<u8> = vec![];
         let _ = CoseMacBuilder::new().protected(hdr.clone()).payload(payload.clone()).create_tag(&aad, |d| { got = d.to_vec(); vec![3] });
         check!("C04,C06", got.clone(), structure("MAC", &[&slot, &aad, &payload]), format!("Mac create aad_len={}", la));
@@ -233,7 +264,7 @@ pub fn probe_structures() -> i32 {
         let _ = CoseMac0Builder::new().protected(hdr.clone()).payload(payload.clone()).create_tag(&aad, |d| { got = d.to_vec(); vec![3] });
         check!("C04,C06", got.clone(), structure("MAC0", &[&slot, &aad, &payload]), format!("Mac0 create aad_len={}", la));
         }
-        if relevant("C03,C06,C02,C01") {
+        if relevant("C03,C06,C01") {
         let mut got: Vec<u8> = vec![];
         let _ = CoseSign1Builder::new().protected(hdr.clone()).payload(payload.clone()).try_create_signature(&aad, |d| -> Result<Vec<u8>, ()> { got = d.to_vec(); Ok(vec![3]) });
         check!("C03,C06", got.clone(), structure("Signature1", &[&slot, &aad, &payload]), format!("Sign1 try_create aad_len={}", la));
@@ -868,6 +899,7 @@ pub fn probe_messages() -> i32 {
     let shapes: [&[u8]; 8] = [&[0, 1, 2, 3], &[0, 1, 2, 4], &[0, 1, 3], &[0, 1, 2, 3, 5], &[0, 1, 2, 3], &[0, 1, 2, 5], &[0, 1, 2], &[0, 1, 2]];
     let names = ["COSE_Sign1", "COSE_Sign", "COSE_Signature", "COSE_Mac", "COSE_Mac0", "COSE_Encrypt", "COSE_Encrypt0", "COSE_recipient"];
     let mut n = 0u64; let mut accepted = 0u64;
+    std::panic::set_hook(Box::new(|_| {}));      // panics of the follow-up operations are caught and reported below
     for _ in 0..scale(4000) {
         let kind = r.below(8) as usize;
         let mut a: Vec<Value> = if kind == 7 { match gen_recipient(&mut r, 0) { Value::Array(a) => a, _ => vec![] } } else { shapes[kind].iter().map(|w| gen_slot(&mut r, *w)).collect() };
@@ -885,7 +917,9 @@ pub fn probe_messages() -> i32 {
                 let slot: Option<Vec<u8>> = match &a[2] { Value::Bytes(b) => Some(b.clone()), _ => None };
                 if x.$payload != slot { if report("C09", format!("{} {}: payload / ciphertext field {:?} differs from slot", names[kind], hex(&ser(&v)), x.$payload)) { return 1; } }
                 // C01: everything a caller does next with an accepted value (panics surface as a crash of this probe)
-                let y = x.clone(); let _ = y == x; let _ = format!("{:?}", y); let _ = y.clone().to_vec(); $follow(&y); drop(y);
+                let y = x.clone();
+                let fu = std::panic::catch_unwind(std::panic::AssertUnwindSafe(|| { let _ = y == x; let _ = format!("{:?}", y); let _ = y.clone().to_vec(); $follow(&y); }));
+                if fu.is_err() { if report("C01,C06", format!("{} {}: a follow-up operation (clone / compare / encode / to-be-signed / verify / decrypt helper) on the accepted value panicked", names[kind], hex(&ser(&v)))) { return 1; } }
                 // C07: the accepted value re-encodes and decodes to the same value
                 let back = x.clone().to_cbor_value().ok().and_then(|w| <$t>::from_cbor_value(w).ok());
                 if back.map(|b| format!("{:?}", b)) != Some(format!("{:?}", x)) { if report("C07,C11", format!("{} {}: does not survive encode/decode", names[kind], hex(&ser(&v)))) { return 1; } }
